@@ -3,23 +3,34 @@
 // Contracts for the deductive checker in /verif (govc). Comment-only; ignored without the
 // "verif" build tag.
 //
-// Ghost view of a multistore commit: subs.cur is the version every mounted substore has saved,
-// wb.latest / wb.cinfo the version the open batch will publish as s/latest and s/<v>,
+// Ghost view of a multistore commit: sub.ver[s] is the version substore s has saved, sub.mounted the set of
+// mounted substores (the values of rs.stores), wb.latest / wb.cinfo the version the open batch will publish as s/latest and s/<v>,
 // disk.latest / disk.cinfo what is durable. The batch and database contracts are in
 // /verif/spec/extern/tmdb.go.txt.
 
 package rootmulti
 
-//@ ghost subs.cur Int
+//@ ghost sub.ver (Array Iface Int)
+//@ ghost sub.mounted (Array Iface Bool)
 //@ ghost wb.latest Int
 //@ ghost wb.cinfo Int
 //@ ghost disk.latest Int
 //@ ghost disk.cinfo (Array Int Bool)
 
-// ASSUMED (range over a Go map is outside the subset): every substore's Commit is called once.
-//@ assumed func commitStores(version int64, storeMap map[types.StoreKey]types.CommitStore) (ci commitInfo)
-//@   modifies subs.cur
-//@   ensures subs.cur == version && ci.Version == version
+// C12/C13: every mounted substore is committed exactly once: all of them move from version-1 to version
+// (different keys mount different stores)
+//@ func commitStores(version int64, storeMap map[types.StoreKey]types.CommitStore) (ci commitInfo)
+//@   props C12 C13
+//@   requires forall k1 Iface, k2 Iface :: has(storeMap, k1) && has(storeMap, k2) && k1 != k2 ==> storeMap[k1] != storeMap[k2]
+//@   requires forall k Iface :: has(storeMap, k) ==> sub.ver[storeMap[k]] == version - 1 && ifacenotnil(storeMap[k])
+//@   modifies sub.ver
+//@   loop 1 frame
+//@   loop 1 invariant 0 <= iterpos(1) && iterpos(1) <= iterlen(1) && fresh(storeInfos)
+//@   loop 1 invariant forall k Iface :: has(storeMap, k) ==> sub.ver[storeMap[k]] == ite(iteridx(1, k) < iterpos(1), version, version - 1)
+//@   loop 1 invariant forall s Iface :: (forall k Iface :: has(storeMap, k) ==> storeMap[k] != s) ==> sub.ver[s] == old(sub.ver[s])
+//@   ensures [all] forall k Iface :: has(storeMap, k) ==> sub.ver[storeMap[k]] == version
+//@   ensures [others] forall s Iface :: (forall k Iface :: has(storeMap, k) ==> storeMap[k] != s) ==> sub.ver[s] == old(sub.ver[s])
+//@   ensures ci.Version == version
 
 // ASSUMED (amino encoding is outside the subset): the batch now carries s/<version> resp. s/latest = version.
 //@ assumed func setCommitInfo(batch dbm.Batch, version int64, cInfo commitInfo)
@@ -39,10 +50,15 @@ package rootmulti
 //@   props C12 C13
 //@   requires rs.lastCommitID.Version >= 0 && rs.lastCommitID.Version < 9223372036854775807
 //@   requires disk.latest == rs.lastCommitID.Version && ifacenotnil(rs.DB)
-//@   modifies subs.cur, wb.latest, wb.cinfo, disk.latest, disk.cinfo, rs.lastCommitID
+// representation: the mounted substores are exactly the values of rs.stores, one store per key, all at the last
+// committed version
+//@   requires forall k Iface :: has(rs.stores, k) ==> sub.mounted[rs.stores[k]] && ifacenotnil(rs.stores[k]) && sub.ver[rs.stores[k]] == rs.lastCommitID.Version
+//@   requires forall s Iface :: sub.mounted[s] ==> (exists k Iface :: has(rs.stores, k) && rs.stores[k] == s)
+//@   requires forall k1 Iface, k2 Iface :: has(rs.stores, k1) && has(rs.stores, k2) && k1 != k2 ==> rs.stores[k1] != rs.stores[k2]
+//@   modifies sub.ver, wb.latest, wb.cinfo, disk.latest, disk.cinfo, rs.lastCommitID
 //@   ensures [version] id.Version == old(rs.lastCommitID.Version) + 1
 //@   ensures [memory] rs.lastCommitID.Version == id.Version
-//@   ensures [durable] disk.latest == id.Version && disk.cinfo[id.Version] && subs.cur == id.Version
+//@   ensures [durable] disk.latest == id.Version && disk.cinfo[id.Version] && (forall s Iface :: sub.mounted[s] ==> sub.ver[s] == id.Version)
 //@   ensures [onlynew] forall v int :: v != id.Version ==> disk.cinfo[v] == old(disk.cinfo[v])
 
 // C12: an IAVL substore is loaded with exactly the multistore's pruning options.
